@@ -8,7 +8,7 @@
      Broken w m r       r has string text that does not resolve in identifiables(m), or resolves to an element whose
                         type does not accept r's DEST (missing / not an enum value / not in the target's list)
    C05 builds on C04: Inv04 is a hypothesis.  Known05 = K05-setref (witness below); Pending05 = OpCopy OpCopyAt OpMove
-   OpMoveAt OpRemove OpRemoveKind OpSetItemName OpRemoveFile OpRemoveFromFile.
+   OpMoveAt OpSetItemName OpRemoveFile OpRemoveFromFile.
    References WITHOUT string text are in neither map: never reported, and resolving them fails (C05_textless) —
    so "absent from the report iff resolving returns the target" holds for references with text only (C05_resolve).
    [P] C05_inv_partial, C05_history_partial   [U] C05_report, C05_resolve, C05_textless *)
